@@ -48,3 +48,232 @@ Definition gen_sasl_expected : Prop :=
 
 Lemma Gen_sasl_ok : gen_sasl_expected.
 Proof. unfold gen_sasl_expected. repeat split; vm_compute; reflexivity. Qed.
+
+(* ------------------------------------------------------------------------------------------ *)
+(* generic list facts                                                                          *)
+Lemma zlen_app {A} (a b : list A) : zlen (a ++ b) = zlen a + zlen b.
+Proof. unfold zlen. rewrite app_length. lia. Qed.
+Lemma zlen_cons {A} (x : A) l : zlen (x :: l) = zlen l + 1.
+Proof. unfold zlen. cbn [length]. lia. Qed.
+Lemma zlen_nil {A} : zlen (@nil A) = 0.
+Proof. reflexivity. Qed.
+Lemma zlen_nonneg {A} (l : list A) : 0 <= zlen l.
+Proof. unfold zlen. lia. Qed.
+Lemma zlen_map {A B} (f : A -> B) l : zlen (map f l) = zlen l.
+Proof. unfold zlen. now rewrite map_length. Qed.
+Lemma zlen_repeat {A} (x : A) n : zlen (repeat x n) = Z.of_nat n.
+Proof. unfold zlen. now rewrite repeat_length. Qed.
+Lemma to_nat_zlen {A} (l : list A) : Z.to_nat (zlen l) = length l.
+Proof. unfold zlen. apply Nat2Z.id. Qed.
+
+Lemma list_eqb_refl : forall a, list_eqb a a = true.
+Proof. induction a as [|x a IH]; cbn [list_eqb]; [reflexivity|]. now rewrite Z.eqb_refl, IH. Qed.
+Lemma list_eqb_eq : forall a b, list_eqb a b = true <-> a = b.
+Proof.
+  induction a as [|x a IH]; intros [|y b]; cbn [list_eqb]; split; intros H; try discriminate; try reflexivity.
+  - apply andb_prop in H. destruct H as [H1 H2]. apply Z.eqb_eq in H1. apply IH in H2. congruence.
+  - injection H as -> ->. now rewrite Z.eqb_refl, (proj2 (IH b) eq_refl).
+Qed.
+Lemma list_eqb_neq : forall a b, a <> b -> list_eqb a b = false.
+Proof. intros a b H. destruct (list_eqb a b) eqn:E; [apply list_eqb_eq in E; contradiction|reflexivity]. Qed.
+
+(* ------------------------------------------------------------------------------------------ *)
+(* heap cells                                                                                  *)
+Lemma cwrite_append : forall (a src : list Z) (k : nat),
+  (length src <= k)%nat ->
+  cwrite (map Some a ++ repeat None k) (zlen a) src =
+  AOk (map Some (a ++ src) ++ repeat None (k - length src)).
+Proof.
+  intros a src k Hk. unfold cwrite.
+  assert (Hl : zlen (map Some a ++ repeat (@None Z) k) = zlen a + Z.of_nat k).
+  { rewrite zlen_app, zlen_map, zlen_repeat. reflexivity. }
+  rewrite Hl.
+  assert (E1 : (0 <=? zlen a) = true) by (apply Z.leb_le; apply zlen_nonneg).
+  assert (E2 : (zlen a + zlen src <=? zlen a + Z.of_nat k) = true) by (apply Z.leb_le; unfold zlen; lia).
+  rewrite E1, E2. cbn [andb]. f_equal.
+  rewrite to_nat_zlen.
+  rewrite firstn_app, map_length, Nat.sub_diag, firstn_O, app_nil_r.
+  rewrite <- (map_length Some a) at 1. rewrite firstn_all.
+  rewrite skipn_app, map_length.
+  replace (skipn (length a + length src) (map Some a)) with (@nil (option Z))
+    by (symmetry; apply skipn_all2; rewrite map_length; lia).
+  replace (length a + length src - length a)%nat with (length src) by lia.
+  cbn [app]. rewrite map_app, <- app_assoc. do 2 f_equal.
+  clear -Hk. revert k Hk. induction src as [|x s IH]; intros k Hk; cbn [length skipn].
+  - now rewrite Nat.sub_0_r.
+  - destruct k as [|k]; [cbn in Hk; lia|]. cbn [repeat skipn]. cbn [length] in Hk. rewrite IH by lia. reflexivity.
+Qed.
+
+Lemma cread_all_map : forall l, cread_all (map Some l) = AOk l.
+Proof. induction l as [|x l IH]; cbn [map cread_all]; [reflexivity|]. rewrite IH. reflexivity. Qed.
+
+(* ------------------------------------------------------------------------------------------ *)
+(* PLAIN (RFC 4616: message = [authzid] NUL authcid NUL passwd, here without authzid)          *)
+Definition rfc4616_message (authcid passwd : list Z) : list Z := [0] ++ authcid ++ [0] ++ passwd.
+
+Lemma plain_lemma : forall authid password,
+  sasl_plain authid password = AOk (encode (rfc4616_message authid password)).
+Proof.
+  intros a p. unfold sasl_plain, rfc4616_message.
+  set (n := (length a + (1 + length p))%nat).
+  replace (Z.to_nat (2 + zlen a + zlen p)) with (S n) by (unfold zlen, n; lia).
+  assert (W1 : cwrite (repeat None (S n)) 0 [0] = AOk (map Some [0] ++ repeat None n)).
+  { pose proof (cwrite_append [] [0] (S n)) as W. cbn [length] in W.
+    replace (S n - 1)%nat with n in W by lia. apply W. lia. }
+  rewrite W1. cbn [abind].
+  assert (W2 : cwrite (map Some [0] ++ repeat None n) 1 a = AOk (map Some ([0] ++ a) ++ repeat None (1 + length p))).
+  { pose proof (cwrite_append [0] a n) as W. replace (n - length a)%nat with (1 + length p)%nat in W by (unfold n; lia).
+    apply W. unfold n; lia. }
+  rewrite W2. cbn [abind].
+  assert (W3 : cwrite (map Some ([0] ++ a) ++ repeat None (1 + length p)) (1 + zlen a) [0] =
+               AOk (map Some (([0] ++ a) ++ [0]) ++ repeat None (length p))).
+  { pose proof (cwrite_append ([0] ++ a) [0] (1 + length p)) as W.
+    replace (zlen ([0] ++ a)) with (1 + zlen a) in W by (rewrite zlen_app; reflexivity).
+    cbn [length] in W. replace (1 + length p - 1)%nat with (length p) in W by lia. apply W. lia. }
+  rewrite W3. cbn [abind].
+  assert (W4 : cwrite (map Some (([0] ++ a) ++ [0]) ++ repeat None (length p)) (1 + zlen a + 1) p =
+               AOk (map Some ((([0] ++ a) ++ [0]) ++ p) ++ repeat None 0)).
+  { pose proof (cwrite_append (([0] ++ a) ++ [0]) p (length p)) as W.
+    replace (zlen (([0] ++ a) ++ [0])) with (1 + zlen a + 1) in W by (rewrite !zlen_app; reflexivity).
+    rewrite Nat.sub_diag in W. apply W. lia. }
+  rewrite W4. cbn [abind repeat]. rewrite app_nil_r, cread_all_map. cbn [abind].
+  do 2 f_equal. rewrite <- !app_assoc. reflexivity.
+Qed.
+
+(* ------------------------------------------------------------------------------------------ *)
+(* component handshake (XEP-0114: lower-case hex of SHA1(stream id ++ secret))                 *)
+Require Import LV.Spec.HashSpec LV.Proofs.HashProofs.
+
+Lemma component_lemma : forall sid secret,
+  component_handshake (Some sid) secret = AOk (hex_of_bytes false (sha1_spec (sid ++ secret))) /\
+  component_handshake None secret = ANull.
+Proof.
+  intros sid secret. split; [|reflexivity].
+  unfold component_handshake.
+  change (map (fun k => if k =? 0 then sid else secret) component_hash_order) with [sid; secret].
+  rewrite sha1_any_split_lemma. cbn [of_h abind concat]. rewrite app_nil_r. reflexivity.
+Qed.
+
+(* ------------------------------------------------------------------------------------------ *)
+(* legacy jabber:iq:auth (XEP-0078): username = localpart, password, resource = resourcepart  *)
+Definition xep0078_fields (node password resource : list Z) : list (list Z * list Z) :=
+  [([117; 115; 101; 114; 110; 97; 109; 101], node);        (* "username" *)
+   ([112; 97; 115; 115; 119; 111; 114; 100], password);    (* "password" *)
+   ([114; 101; 115; 111; 117; 114; 99; 101], resource)].   (* "resource" *)
+
+Lemma legacy_lemma : forall jid password,
+  legacy_payload jid password =
+    match spec_node jid, spec_resource jid with
+    | Some node, Some resource => AOk (xep0078_fields node password resource)
+    | _, _ => ANull
+    end.
+Proof.
+  intros jid pw. unfold legacy_payload.
+  change legacy_children with [s_username; [112; 97; 115; 115; 119; 111; 114; 100]; [114; 101; 115; 111; 117; 114; 99; 101]].
+  change legacy_text_src with [0; 1; 2].
+  cbn [legacy_children_of legacy_src Z.eqb]. 
+  destruct (spec_node jid) as [n|]; [|reflexivity].
+  destruct (spec_resource jid) as [r|]; reflexivity.
+Qed.
+
+(* ------------------------------------------------------------------------------------------ *)
+(* EXTERNAL (XEP-0178)                                                                         *)
+Lemma external_lemma : forall xmppaddrs jid,
+  (xmppaddrs = [] -> external_payload xmppaddrs jid = [61]) /\
+  (xmppaddrs = [jid] -> external_payload xmppaddrs jid = [61]) /\
+  (xmppaddrs <> [] -> xmppaddrs <> [jid] -> external_payload xmppaddrs jid = encode jid).
+Proof.
+  intros xs jid. repeat split.
+  - intros ->. reflexivity.
+  - intros ->. unfold external_payload. change (zlen [jid] =? 1) with true. now rewrite list_eqb_refl.
+  - intros H1 H2. unfold external_payload. destruct xs as [|a [|b r]]; [contradiction| |].
+    + change (zlen [a] =? 1) with true. cbn [andb]. rewrite list_eqb_neq; [reflexivity|]. intros ->. now apply H2.
+    + replace (zlen (a :: b :: r) =? 1) with false; [reflexivity|].
+      symmetry. apply Z.eqb_neq. rewrite !zlen_cons. pose proof (zlen_nonneg r). lia.
+Qed.
+
+(* ------------------------------------------------------------------------------------------ *)
+(* linear use of the RNG stream by successive SCRAM attempts                                   *)
+Definition is_some {A} (o : option A) : bool := match o with Some _ => true | None => false end.
+(* the attempt gets as far as xmpp_rand_nonce *)
+Definition consumes (a : attempt) : bool :=
+  (if at_plus a then at_secured a && is_some (at_cbtype a) else true) && is_some (spec_node (at_jid a)).
+Definition attempt_on (a : attempt) (rng : list Z) : ares scram_init * list Z :=
+  make_scram_init_msg (at_plus a) (at_secured a) (at_cbtype a) (at_cbdata a) (at_jid a) rng.
+Definition NONCE_BYTES : nat := 16.
+
+Lemma attempt_rng : forall a rng,
+  (consumes a = true ->
+     snd (attempt_on a rng) = skipn NONCE_BYTES rng /\
+     fst (attempt_on a rng) = fst (attempt_on a (firstn NONCE_BYTES rng))) /\
+  (consumes a = false -> attempt_on a rng = (ANull, rng)).
+Proof.
+  intros [plus sec cbt cbd jid] rng. unfold consumes, attempt_on, make_scram_init_msg.
+  cbn [at_plus at_secured at_cbtype at_cbdata at_jid].
+  change (Z.to_nat (scram_nonce_len / 2)) with NONCE_BYTES.
+  unfold rng_take. change (Z.to_nat (scram_nonce_len / 2)) with NONCE_BYTES.
+  rewrite firstn_firstn, Nat.min_id.
+  destruct plus; [destruct sec; cbn [negb andb]; [destruct cbt as [t|]; cbn [is_some andb]|]|]; cbn [is_some andb];
+    try (split; [discriminate|reflexivity]);
+    (destruct (spec_node jid) as [n|]; cbn [is_some andb]; [|split; [discriminate|reflexivity]]);
+    (split; [intros _|discriminate]);
+    destruct (scram_buf_size <? scram_nonce_len); cbn [fst snd]; split; reflexivity.
+Qed.
+
+Fixpoint offsets (atts : list attempt) (off : nat) : list nat :=
+  match atts with
+  | [] => []
+  | a :: r => off :: offsets r (if consumes a then off + NONCE_BYTES else off)%nat
+  end.
+
+Lemma skipn_skipn' {A} : forall (b a : nat) (l : list A), skipn a (skipn b l) = skipn (b + a) l.
+Proof.
+  induction b as [|b IH]; intros a l; [reflexivity|]. destruct l as [|x l]; [now rewrite !skipn_nil|]. cbn [skipn Nat.add]. apply IH.
+Qed.
+
+Lemma run_attempts_windows : forall atts rng off,
+  run_attempts atts (skipn off rng) =
+  map (fun ao => fst (attempt_on (fst ao) (firstn NONCE_BYTES (skipn (snd ao) rng)))) (combine atts (offsets atts off)).
+Proof.
+  induction atts as [|a r IH]; intros rng off; cbn [run_attempts offsets combine map]; [reflexivity|].
+  fold (attempt_on a (skipn off rng)).
+  destruct (attempt_rng a (skipn off rng)) as [Hc Hn].
+  destruct (consumes a) eqn:Ec.
+  - destruct (Hc eq_refl) as [Hs Hf]. destruct (attempt_on a (skipn off rng)) as [res rng'] eqn:E.
+    cbn [fst snd] in *. subst rng'. rewrite skipn_skipn', IH. f_equal. cbn [fst snd]. exact Hf.
+  - rewrite (Hn eq_refl). rewrite IH. f_equal. cbn [fst snd].
+    destruct (attempt_rng a (firstn NONCE_BYTES (skipn off rng))) as [_ Hn2]. rewrite (Hn2 Ec). reflexivity.
+Qed.
+
+Lemma offsets_mono : forall atts off k o, nth_error (offsets atts off) k = Some o -> (off <= o)%nat.
+Proof.
+  induction atts as [|a r IH]; intros off [|k] o H; cbn [offsets nth_error] in H; try discriminate.
+  - injection H as <-. lia.
+  - apply IH in H. destruct (consumes a); lia.
+Qed.
+
+Lemma offsets_disjoint : forall atts off i j oi oj ai,
+  (i < j)%nat -> nth_error atts i = Some ai -> consumes ai = true ->
+  nth_error (offsets atts off) i = Some oi -> nth_error (offsets atts off) j = Some oj ->
+  (oi + NONCE_BYTES <= oj)%nat.
+Proof.
+  induction atts as [|a r IH]; intros off i j oi oj ai Hij Hi Hc Hoi Hoj; [destruct i; discriminate|].
+  destruct j as [|j]; [lia|]. cbn [offsets nth_error] in Hoj.
+  destruct i as [|i].
+  - cbn [nth_error offsets] in Hi, Hoi. injection Hi as ->. injection Hoi as <-. rewrite Hc in Hoj.
+    apply offsets_mono in Hoj. exact Hoj.
+  - cbn [nth_error offsets] in Hi, Hoi.
+    apply (IH (if consumes a then (off + NONCE_BYTES)%nat else off) i j oi oj ai); [lia|exact Hi|exact Hc|exact Hoi|exact Hoj].
+Qed.
+
+Lemma nonce_linear_lemma : forall atts rng,
+  run_attempts atts rng =
+    map (fun ao => fst (attempt_on (fst ao) (firstn NONCE_BYTES (skipn (snd ao) rng)))) (combine atts (offsets atts 0)) /\
+  (forall i j oi oj ai, (i < j)%nat -> nth_error atts i = Some ai -> consumes ai = true ->
+     nth_error (offsets atts 0) i = Some oi -> nth_error (offsets atts 0) j = Some oj ->
+     (oi + NONCE_BYTES <= oj)%nat).
+Proof.
+  intros atts rng. split.
+  - exact (run_attempts_windows atts rng 0).
+  - intros. eapply offsets_disjoint; eauto.
+Qed.
